@@ -3275,15 +3275,17 @@ def resolve_sequences(items):
             new_items.append(item)
             continue
 
-        values = [int(value, base=0) for value in item.values]
-
         data = bytearray()
-        for value in values:
-            fmt = endianness + formats[item.name]
-            if value < 0:
-                fmt = fmt.lower()
-            value = struct.pack(fmt, value)
-            data.extend(value)
+        try:
+            values = [int(value, base=0) for value in item.values]
+            for value in values:
+                fmt = endianness + formats[item.name]
+                if value < 0:
+                    fmt = fmt.lower()
+                value = struct.pack(fmt, value)
+                data.extend(value)
+        except (ValueError, struct.error) as e:
+            raise AssemblerError(str(e), item.line)
         blob = Blob(item.line, bytes(data))
         new_items.append(blob)
 
@@ -3326,7 +3328,10 @@ def resolve_packs(items):
             new_items.append(item)
             continue
 
-        data = struct.pack(item.fmt, item.imm)
+        try:
+            data = struct.pack(item.fmt, item.imm)
+        except struct.error as e:
+            raise AssemblerError(str(e), item.line)
         blob = Blob(item.line, data)
         new_items.append(blob)
 
